@@ -134,15 +134,18 @@ def r02_4(ctx, layers):
         r.ob("changeset:removal-set-is-param", arg == ("param", 4), f.site, "batch_remove receives %s" % show(arg, f))
         ext = [(bi, t) for bi, t, cal in f.calls() if cal and cal.name == "extend" and pv.operand(t["args"][0]) == ("param", 4)]
         ok = False
+        from riolib.prov import container_fills, mentions_through_containers
+        pvs, fills = container_fills(f)
+        from_updated = lambda e: mentions_through_containers(e, lambda x: x == ("param", 3), fills)
         for bi, t in ext:
-            src = pv.operand(t["args"][1])
-            if f.dominates(bi, bb) and mentions(src, lambda x: x == ("param", 3)):
+            src = pvs.operand(t["args"][1])
+            if f.dominates(bi, bb) and from_updated(src):
                 ok = True
         if not ok:
             # the same written as a loop: for route in <updated> { removed.insert(route.id()) }
             s = Sym(f, copies=True)
-            for lp in for_loops(f, pv):
-                if not mentions(lp.source, lambda x: x == ("param", 3)) or not (f.dominates(lp.exit, bb) and lp.exit != bb or f.dominates(lp.exit, bb)):
+            for lp in for_loops(f, pvs):
+                if not from_updated(lp.source) or not f.dominates(lp.exit, bb):
                     continue
                 its = [p for p in lp.iteration_paths(s) if p.end[0] == "stop"]
                 if its and all(any(e[0] == "call" and e[1].endswith("HashSet::insert") and e[2][0] in (("param", 4), ("local", 4)) and mentions(e[2][1], lambda x: x[0] == "call" and x[1].endswith("::id")) for e in p.events) for p in its):
@@ -150,9 +153,11 @@ def r02_4(ctx, layers):
                         ok = True
         r.ob("changeset:updated-ids-removed", ok, f.site, "ids of `updated` are added to the removal set before batch_remove")
         # updated are inserted before added
-        loops = for_loops(f, pv)
-        upd = [lp for lp in loops if mentions(lp.source, lambda x: x == ("param", 3))]
-        add = [lp for lp in loops if mentions(lp.source, lambda x: x == ("param", 2))]
+        loops = for_loops(f, pvs)
+        ins_blocks = {bi for bi, t in ins}
+        inserting = [lp for lp in loops if lp.blocks() & ins_blocks]
+        upd = [lp for lp in inserting if from_updated(lp.source)]
+        add = [lp for lp in inserting if mentions(lp.source, lambda x: x == ("param", 2))]
         ok2 = bool(upd and add) and all(f.dominates(u.exit, a.next_block) for u in upd for a in add)
         r.ob("changeset:updated-before-added", ok2, f.site, "the loop inserting `updated` completes before the loop inserting `added`")
     ctx.run_rule("R02.4", "change-set ordering", body, floor=6)
